@@ -226,11 +226,14 @@ func genTree(depth int, fielded bool) *qt {
 		return mk("mustnot", genTree(depth-1, fielded))
 	case 9:
 		t := mk("boost", genTree(depth-1, fielded))
-		t.num = pick([]string{"", "", "2", "0.5", "3.25", "10", "1", "1.0"})
+		t.num = pick(boostNums)
+		if allowZeroBoost && rng.Intn(12) == 0 {
+			t.num = pick(zeroBoost)
+		}
 		return t
 	case 10:
 		t := mk("fuzzy", genTree(depth-1, fielded))
-		t.num = pick([]string{"", "", "2", "3", "7", "0", "1"})
+		t.num = pick(fuzzyNums)
 		return t
 	}
 	return par(genTree(depth-1, fielded))
@@ -530,6 +533,8 @@ func genMain(args []string) {
 		genCustom(*n)
 	case "big":
 		genBig(thorough)
+	case "scale-list", "scale-giant", "scale-chain", "scale-prefix", "scale-layout", "scale-names", "scale-values", "scale-digits":
+		genScale(strings.TrimPrefix(mode, "scale-"), thorough)
 	case "corpus":
 		genCorpus()
 	default:
@@ -570,6 +575,7 @@ func genRand(n int) {
 
 // C05: printed trees with minimal and with redundant parentheses; the driver knows the tree (tag qt=)
 func genTrees(n int, thorough bool) {
+	allowZeroBoost = false
 	for i := 0; i < n; i++ {
 		d := 1 + rng.Intn(3)
 		if thorough {
@@ -702,6 +708,7 @@ func genDField(n int) {
 	names := []string{"zz_df", `my "fld`, "dé f", "D", "zz.q-1", "9z"}
 	for g := 0; g < n; g++ {
 		var q string
+		name := pick(names)
 		if rng.Intn(5) == 0 {
 			L := 1 + rng.Intn(6)
 			w := []string{}
@@ -715,9 +722,12 @@ func genDField(n int) {
 				t = addPars(t, 0.2)
 			}
 			q = join(t.words(func() bool { return rng.Intn(3) == 0 }), rng.Intn(3))
+			if rng.Intn(2) == 0 {
+				name = relatedName(t) // a name close to one of the query's own fields, or one with punctuation
+			}
 		}
 		emitQ(q, "", fmt.Sprintf("rel=C11;g=%d;role=a", g))
-		emitQ(q, pick(names), fmt.Sprintf("rel=C11;g=%d;role=b", g))
+		emitQ(q, name, fmt.Sprintf("rel=C11;g=%d;role=b", g))
 	}
 }
 
